@@ -187,3 +187,511 @@ Proof.
   - intros x Hx. apply in_map_iff in Hx. destruct Hx as [i [<- Hi]]. apply in_seq in Hi.
     apply mem_In. apply Hall. lia.
 Qed.
+
+Lemma forallb_rev : forall (p : Z -> bool) l, forallb p l = true -> forallb p (rev l) = true.
+Proof.
+  intros p l. rewrite !forallb_forall. intros H x Hx. apply H. apply in_rev. exact Hx.
+Qed.
+
+Lemma upper_nonempty_table : forall r, forallb is_upper r = true -> r <> [] -> valid_table_identb r = true.
+Proof.
+  intros [|c t] H Hn; [congruence|]. cbn in *. apply andb_true_iff in H. destruct H as [H1 H2].
+  rewrite H1. cbn. eapply forallb_imp; [|exact H2]. intros x Hx. apply letter_ident, upper_letter, Hx.
+Qed.
+
+(* ---- the three regex re-implementations ----------------------------------------------------------- *)
+Lemma sub_invalid_chars : forall s b, forallb is_ident_char (sub_invalid b s) = true.
+Proof.
+  induction s as [|c t IH]; intros b; [reflexivity|]. cbn [sub_invalid].
+  destruct (is_ident_char c) eqn:E.
+  - cbn [forallb]. rewrite E, IH. reflexivity.
+  - destruct b; [apply IH|]. cbn [forallb]. rewrite IH. reflexivity.
+Qed.
+Lemma sub_invalid_id : forall s b, forallb is_ident_char s = true -> sub_invalid b s = s.
+Proof.
+  induction s as [|c t IH]; intros b H; [reflexivity|]. cbn [forallb] in H.
+  apply andb_true_iff in H. destruct H as [H1 H2]. cbn [sub_invalid]. rewrite H1, IH by exact H2. reflexivity.
+Qed.
+Lemma lstrip_chars : forall (p : Z -> bool) s, forallb p s = true -> forallb p (lstrip_us s) = true.
+Proof.
+  induction s as [|c t IH]; intros H; [reflexivity|]. cbn [lstrip_us]. destruct (c =? 95); [|exact H].
+  cbn [forallb] in H. apply andb_true_iff in H. apply IH. tauto.
+Qed.
+Lemma fix_start_valid : forall prefix s, valid_identb prefix = true -> forallb is_ident_char s = true ->
+  fix_start prefix s = [] \/ valid_identb (fix_start prefix s) = true.
+Proof.
+  intros prefix [|c t] Hp Hs; [left; reflexivity|]. right. cbn [fix_start].
+  destruct (is_digit c || (c =? 95)) eqn:E.
+  - apply valid_app; assumption.
+  - cbn [forallb] in Hs. apply andb_true_iff in Hs. destruct Hs as [H1 H2]. cbn [valid_identb].
+    rewrite H2. cls. lia.
+Qed.
+
+Section Proofs.
+  Variable nfkd : str -> str.
+  Variable combining : Z -> bool.
+  Variable upper_char : Z -> str.
+  Variable cap_char : Z -> str.
+  Variable udigit : Z -> bool.
+  Variable kwlist : list str.
+
+  (* what is assumed about the library on ASCII (each is monitored on the running Python by harness/props/c21.py) *)
+  Hypothesis upper_ascii : forall c, is_ascii c = true -> upper_char c = [ascii_upper c].
+  Hypothesis cap_ascii : forall c, is_ascii c = true -> cap_char c = [ascii_upper c].
+  Hypothesis nfkd_ascii : forall s, forallb is_ascii s = true -> nfkd s = s.
+  Hypothesis combining_ascii : forall c, is_ascii c = true -> combining c = false.
+  (* str.upper is idempotent (used only by the "batch kept" statement) *)
+  Hypothesis upper_idem : forall c, upper upper_char (upper_char c) = upper_char c.
+  (* facts about the regenerated keyword list, evaluated in Props/C21.v *)
+  Hypothesis kw_ok : kw_facts kwlist = true.
+
+  Local Notation upper := (upper upper_char).
+  Local Notation iskeyword := (iskeyword kwlist).
+  Local Notation sanitize_ident := (sanitize_ident nfkd combining cap_char kwlist).
+  Local Notation suffix_loop := (suffix_loop upper_char).
+  Local Notation add_suffix := (add_suffix upper_char udigit).
+  Local Notation maybe_add_suffix := (maybe_add_suffix upper_char udigit).
+  Local Notation gen_ident := (gen_ident upper_char).
+  Local Notation pick_table_ident := (pick_table_ident nfkd combining upper_char cap_char udigit kwlist).
+  Local Notation pick_col_ident := (pick_col_ident nfkd combining upper_char cap_char udigit kwlist).
+  Local Notation pick_list_loop := (pick_list_loop nfkd combining upper_char cap_char udigit kwlist).
+  Local Notation pick_col_ident_list := (pick_col_ident_list nfkd combining upper_char cap_char udigit kwlist).
+
+  (* ---- upper ---- *)
+  Lemma upper_app : forall a b, upper (a ++ b) = upper a ++ upper b.
+  Proof. intros a b. unfold Ident.upper. apply flat_map_app. Qed.
+  Lemma upper_ascii_str : forall s, forallb is_ascii s = true -> upper s = map ascii_upper s.
+  Proof.
+    induction s as [|c t IH]; intros H; [reflexivity|]. cbn [forallb] in H.
+    apply andb_true_iff in H. destruct H as [H1 H2].
+    unfold Ident.upper in *. cbn [flat_map map]. rewrite (upper_ascii _ H1), IH by exact H2. reflexivity.
+  Qed.
+  Lemma upper_plain : forall s, forallb plain s = true -> upper s = s.
+  Proof.
+    induction s as [|c t IH]; intros H; [reflexivity|]. cbn [forallb] in H.
+    apply andb_true_iff in H. destruct H as [H1 H2]. unfold plain in H1.
+    apply andb_true_iff in H1. destruct H1 as [Ha Hl].
+    unfold Ident.upper in *. cbn [flat_map]. rewrite (upper_ascii _ Ha), IH by exact H2.
+    unfold ascii_upper. destruct (is_lower c); [discriminate|reflexivity].
+  Qed.
+  Lemma map_upper_plain : forall s, forallb is_ascii s = true -> forallb plain (map ascii_upper s) = true.
+  Proof.
+    induction s as [|c t IH]; intros H; [reflexivity|]. cbn [forallb] in H.
+    apply andb_true_iff in H. destruct H as [H1 H2]. cbn [map forallb]. rewrite IH by exact H2.
+    rewrite andb_true_r. unfold plain, ascii_upper. destruct (is_lower c) eqn:E; cls; lia.
+  Qed.
+  Lemma upper_upper_ascii : forall s, forallb is_ascii s = true -> upper (upper s) = upper s.
+  Proof. intros s H. rewrite (upper_ascii_str s H). apply upper_plain, map_upper_plain, H. Qed.
+  Lemma upper_of_upper_letters : forall r, forallb is_upper r = true -> upper r = r.
+  Proof. intros r H. apply upper_plain. eapply forallb_imp; [|exact H]. intros c. unfold plain. cls. lia. Qed.
+  Lemma upper_idem_str : forall s, upper (upper s) = upper s.
+  Proof.
+    induction s as [|c t IH]; [reflexivity|]. change (upper (c :: t)) with (upper_char c ++ upper t).
+    rewrite upper_app, IH, upper_idem. reflexivity.
+  Qed.
+
+  (* ---- keywords ---- *)
+  Lemma kw_fact_in : forall k, iskeyword k = true -> last_is_digit k = false /\ forallb is_upper k = false.
+  Proof.
+    intros k H. apply mem_In in H. unfold kw_facts in kw_ok. rewrite forallb_forall in kw_ok.
+    specialize (kw_ok k H). apply andb_true_iff in kw_ok. destruct kw_ok as [H1 H2].
+    apply negb_true_iff in H1, H2. tauto.
+  Qed.
+  Lemma max_kw_len_ge : forall k, iskeyword k = true -> (length k <= max_kw_len kwlist)%nat.
+  Proof.
+    intros k H. apply mem_In in H. unfold max_kw_len. clear kw_ok. induction kwlist as [|x l IH]; [contradiction|].
+    cbn [fold_right]. destruct H as [->|H]; [lia|]. specialize (IH H). lia.
+  Qed.
+
+  Lemma kw_loop_inv : forall (P : str -> Prop) prefix, (forall s, P s -> P (prefix ++ s)) ->
+    forall fuel s r, P s -> kw_loop kwlist fuel prefix s = Some r -> P r /\ iskeyword r = false.
+  Proof.
+    intros P prefix HP. induction fuel as [|f IH]; intros s r Hs H; [discriminate|].
+    cbn [kw_loop] in H. destruct (iskeyword s) eqn:E.
+    - apply (IH (prefix ++ s)); [apply HP; exact Hs|exact H].
+    - inversion H; subst. split; assumption.
+  Qed.
+  Lemma kw_loop_total : forall prefix, prefix <> [] -> forall fuel s,
+    (max_kw_len kwlist + 2 <= length s + fuel)%nat -> (1 <= fuel)%nat -> kw_loop kwlist fuel prefix s <> None.
+  Proof.
+    intros prefix Hp. induction fuel as [|f IH]; intros s H1 H2; [lia|].
+    cbn [kw_loop]. destruct (iskeyword s) eqn:E; [|discriminate].
+    apply max_kw_len_ge in E. apply IH.
+    - rewrite app_length. destruct prefix; [congruence|]. cbn [length]. lia.
+    - lia.
+  Qed.
+
+  (* ---- _sanitize_ident ---- *)
+  Lemma sanitize_spec : forall i prefix cap, valid_identb prefix = true ->
+    exists r, sanitize_ident i prefix cap = Some r /\
+      (r = [] \/ (valid_identb r = true /\ iskeyword r = false /\
+                  (cap = true -> valid_table_identb prefix = true -> valid_table_identb r = true))).
+  Proof.
+    intros i prefix cap Hp. unfold Ident.sanitize_ident.
+    set (pre := lstrip_us (sub_invalid false (filter (fun c => negb (combining c))
+                  (nfkd match i with Some s => s | None => [] end)))).
+    assert (Hpre : forallb is_ident_char pre = true) by (apply lstrip_chars, sub_invalid_chars).
+    destruct (fix_start_valid prefix pre Hp Hpre) as [E|V].
+    - rewrite E. exists []. split; [reflexivity|left; reflexivity].
+    - destruct (fix_start prefix pre) as [|c t] eqn:E; [discriminate V|].
+      set (s' := if cap then capitalize_first cap_char (c :: t) else c :: t).
+      assert (Hs' : valid_identb s' = true /\ (cap = true -> valid_table_identb s' = true)).
+      { subst s'. destruct cap; [|split; [exact V|discriminate]].
+        cbn [capitalize_first]. cbn [valid_identb] in V. apply andb_true_iff in V. destruct V as [V1 V2].
+        rewrite cap_ascii by (apply ident_ascii, letter_ident, V1). cbn [app].
+        assert (T : valid_table_identb (ascii_upper c :: t) = true).
+        { cbn [valid_table_identb]. rewrite (ascii_upper_letter _ V1), V2. reflexivity. }
+        split; [apply valid_table_valid; exact T|intros _; exact T]. }
+      destruct Hs' as [Hv Ht].
+      assert (Hne : prefix <> []) by (destruct prefix; [discriminate Hp|discriminate]).
+      destruct (kw_loop kwlist (S (S (max_kw_len kwlist))) prefix s') as [r|] eqn:K.
+      + exists r. split; [reflexivity|]. right.
+        destruct (kw_loop_inv (fun s => valid_identb s = true) prefix
+                    (fun s Hs => valid_app prefix s Hp (valid_ident_chars s Hs)) _ _ _ Hv K) as [R1 R2].
+        split; [exact R1|]. split; [exact R2|]. intros Hc Htp.
+        apply (kw_loop_inv (fun s => valid_table_identb s = true) prefix
+                 (fun s Hs => valid_table_app prefix s Htp (valid_ident_chars s (valid_table_valid s Hs)))
+                 _ _ _ (Ht Hc) K).
+      + exfalso. revert K. apply kw_loop_total; [exact Hne|lia|lia].
+  Qed.
+
+  Lemma sanitize_kept : forall s prefix cap, valid_identb s = true -> iskeyword s = false ->
+    (cap = true -> valid_table_identb s = true) -> sanitize_ident (Some s) prefix cap = Some s.
+  Proof using cap_ascii nfkd_ascii combining_ascii.
+    try clear kw_ok; try clear upper_idem.
+    intros s prefix cap Hv Hk Ht. unfold Ident.sanitize_ident.
+    pose proof (valid_ident_ascii s Hv) as Ha. pose proof (valid_ident_chars s Hv) as Hc.
+    rewrite (nfkd_ascii s Ha).
+    assert (F : filter (fun c => negb (combining c)) s = s).
+    { clear Hv Hk Ht Hc. induction s as [|c t IH]; [reflexivity|]. cbn [forallb] in Ha.
+      apply andb_true_iff in Ha. destruct Ha as [H1 H2]. cbn [filter].
+      rewrite (combining_ascii _ H1). cbn [negb]. rewrite IH by exact H2. reflexivity. }
+    rewrite F, (sub_invalid_id s false Hc).
+    destruct s as [|c t]; [discriminate Hv|]. cbn [valid_identb] in Hv.
+    apply andb_true_iff in Hv. destruct Hv as [V1 V2].
+    assert (L : lstrip_us (c :: t) = c :: t).
+    { cbn [lstrip_us]. destruct (c =? 95) eqn:E; [cls; lia|reflexivity]. }
+    rewrite L.
+    assert (S0 : fix_start prefix (c :: t) = c :: t).
+    { cbn [fix_start]. destruct (is_digit c || (c =? 95)) eqn:E; [cls; lia|reflexivity]. }
+    rewrite S0.
+    assert (C : (if cap then capitalize_first cap_char (c :: t) else c :: t) = c :: t).
+    { destruct cap; [|reflexivity]. specialize (Ht eq_refl). cbn [valid_table_identb] in Ht.
+      apply andb_true_iff in Ht. destruct Ht as [T1 _]. cbn [capitalize_first].
+      rewrite cap_ascii by (apply ident_ascii, letter_ident, V1). rewrite (ascii_upper_upper _ T1). reflexivity. }
+    rewrite C. cbn [kw_loop]. rewrite Hk. reflexivity.
+  Qed.
+
+  (* ---- the suffix search ---- *)
+  Lemma upper_cand : forall base j, upper (base ++ dec j) = upper base ++ dec j.
+  Proof. intros base j. rewrite upper_app, (upper_plain (dec j) (dec_plain j)). reflexivity. Qed.
+
+  Lemma suffix_loop_some : forall fuel base avoid k r, suffix_loop fuel base avoid k = Some r ->
+    exists j, k <= j /\ r = base ++ dec j /\ mem (upper r) avoid = false.
+  Proof using Type.
+    try clear kw_ok; try clear upper_idem.
+    induction fuel as [|f IH]; intros base avoid k r H; [discriminate|]. cbn [Ident.suffix_loop] in H.
+    destruct (mem (upper (base ++ dec k)) avoid) eqn:E.
+    - destruct (IH _ _ _ _ H) as [j [H1 H2]]. exists j. split; [lia|exact H2].
+    - inversion H; subst. exists k. split; [lia|]. split; [reflexivity|exact E].
+  Qed.
+  Lemma suffix_loop_none : forall fuel base avoid k, suffix_loop fuel base avoid k = None ->
+    forall i, (i < fuel)%nat -> mem (upper (base ++ dec (k + Z.of_nat i))) avoid = true.
+  Proof using Type.
+    try clear kw_ok; try clear upper_idem.
+    induction fuel as [|f IH]; intros base avoid k H i Hi; [lia|]. cbn [Ident.suffix_loop] in H.
+    destruct (mem (upper (base ++ dec k)) avoid) eqn:E; [|discriminate].
+    destruct i as [|i].
+    - replace (k + Z.of_nat 0) with k by lia. exact E.
+    - replace (k + Z.of_nat (S i)) with (k + 1 + Z.of_nat i) by lia. apply IH; [exact H|lia].
+  Qed.
+  (* pigeonhole: |avoid|+1 pairwise different candidates cannot all be in avoid *)
+  Lemma suffix_loop_total : forall base avoid k, suffix_loop (S (length avoid)) base avoid k <> None.
+  Proof using upper_ascii.
+    try clear kw_ok; try clear upper_idem.
+    intros base avoid k H.
+    pose proof (suffix_loop_none _ _ _ _ H) as Hall.
+    assert (Hinj : Injective (fun i => upper (base ++ dec (k + Z.of_nat i)))).
+    { intros i j E. rewrite !upper_cand in E. apply app_inv_head in E. apply dec_inj in E. lia. }
+    pose proof (pigeonhole _ _ avoid Hinj Hall). lia.
+  Qed.
+
+  Lemma add_suffix_spec : forall base avoid k, valid_identb base = true -> 0 < k ->
+    exists r, add_suffix base avoid k = Some r /\ valid_identb r = true /\
+      (valid_table_identb base = true -> valid_table_identb r = true) /\
+      iskeyword r = false /\ mem (upper r) avoid = false.
+  Proof.
+    intros base avoid k Hv Hk. unfold Ident.add_suffix.
+    set (base' := if ends_in_digit udigit base then base ++ [95] else base).
+    assert (Hv' : valid_identb base' = true) by (subst base'; destruct (ends_in_digit udigit base);
+      [apply valid_app; [exact Hv|reflexivity]|exact Hv]).
+    assert (Ht' : valid_table_identb base = true -> valid_table_identb base' = true)
+      by (intros Ht; subst base'; destruct (ends_in_digit udigit base);
+          [apply valid_table_app; [exact Ht|reflexivity]|exact Ht]).
+    destruct (suffix_loop (S (length avoid)) base' avoid k) as [r|] eqn:E;
+      [|exfalso; revert E; apply suffix_loop_total].
+    exists r. split; [reflexivity|].
+    destruct (suffix_loop_some _ _ _ _ _ E) as [j [Hj [-> Hm]]].
+    destruct (dec_pos_digits j ltac:(lia)) as [Hd Hn].
+    assert (Hi : forallb is_ident_char (dec j) = true) by (eapply forallb_imp; [exact digit_ident|exact Hd]).
+    split; [apply valid_app; assumption|]. split; [intros Ht; apply valid_table_app; auto|].
+    split; [|exact Hm].
+    destruct (iskeyword (base' ++ dec j)) eqn:K; [|reflexivity].
+    apply kw_fact_in in K. rewrite (last_is_digit_app base' (dec j) Hn Hd) in K. destruct K; discriminate.
+  Qed.
+
+  Lemma maybe_add_suffix_spec : forall s avoid, valid_identb s = true -> iskeyword s = false ->
+    exists r, maybe_add_suffix s avoid = Some r /\ valid_identb r = true /\
+      (valid_table_identb s = true -> valid_table_identb r = true) /\
+      iskeyword r = false /\ mem (upper r) avoid = false.
+  Proof.
+    intros s avoid Hv Hk. unfold Ident.maybe_add_suffix. destruct (mem (upper s) avoid) eqn:E.
+    - apply add_suffix_spec; [exact Hv|lia].
+    - exists s. auto.
+  Qed.
+
+  (* ---- the A..Z, AA.. search ---- *)
+  Lemma gen_loop_some : forall fuel cur av r, forallb is_upper cur = true -> cur <> [] ->
+    gen_loop fuel cur av = Some r -> forallb is_upper r = true /\ r <> [] /\ mem r av = false.
+  Proof using Type.
+    try clear kw_ok; try clear upper_idem.
+    induction fuel as [|f IH]; intros cur av r Hu Hn H; [discriminate|]. cbn [gen_loop] in H.
+    destruct (mem (rev cur) av) eqn:E.
+    - apply (IH (next_letters_rev cur)); [apply next_upper; exact Hu|apply next_nonempty|exact H].
+    - inversion H; subst. split; [apply forallb_rev; exact Hu|]. split; [|exact E].
+      intros R. apply Hn. rewrite <- (rev_involutive cur), R. reflexivity.
+  Qed.
+  Lemma gen_loop_none : forall fuel cur av, gen_loop fuel cur av = None ->
+    forall i, (i < fuel)%nat -> mem (rev (iter_next i cur)) av = true.
+  Proof using Type.
+    try clear kw_ok; try clear upper_idem.
+    induction fuel as [|f IH]; intros cur av H i Hi; [lia|]. cbn [gen_loop] in H.
+    destruct (mem (rev cur) av) eqn:E; [|discriminate].
+    destruct i as [|i]; [exact E|]. cbn [iter_next]. apply IH; [exact H|lia].
+  Qed.
+  Lemma gen_loop_total : forall av, gen_loop (S (length av)) [65] av <> None.
+  Proof using Type.
+    try clear kw_ok; try clear upper_idem.
+    intros av H. pose proof (gen_loop_none _ _ _ H) as Hall.
+    pose proof (pigeonhole _ _ av (iter_inj [65] eq_refl) Hall). lia.
+  Qed.
+
+  Lemma gen_ident_spec : forall avoid,
+    exists r, gen_ident avoid = Some r /\ valid_table_identb r = true /\ iskeyword r = false /\
+      forallb is_upper r = true /\ mem r (map upper avoid) = false.
+  Proof.
+    intros avoid. unfold Ident.gen_ident, uppercase.
+    destruct (gen_loop (S (length (map upper avoid))) [65] (map upper avoid)) as [r|] eqn:E;
+      [|exfalso; revert E; apply gen_loop_total].
+    exists r. split; [reflexivity|].
+    destruct (gen_loop_some _ [65] _ _ eq_refl ltac:(discriminate) E) as [Hu [Hn Hm]].
+    split; [apply upper_nonempty_table; assumption|]. split; [|split; assumption].
+    destruct (iskeyword r) eqn:K; [|reflexivity]. apply kw_fact_in in K. destruct K as [_ K]. congruence.
+  Qed.
+
+  (* ---- pick_col_ident / pick_table_ident ---- *)
+  Lemma not_mem_upper : forall r avoid, mem (upper r) (map upper avoid) = false ->
+    forall a, In a avoid -> upper r <> upper a.
+  Proof.
+    intros r avoid H a Ha E. apply mem_false in H. apply H. rewrite E. apply in_map. exact Ha.
+  Qed.
+
+  Lemma pick_col_spec : forall i avoid,
+    exists r, pick_col_ident i avoid = Some r /\ valid_identb r = true /\ iskeyword r = false /\
+      (forall a, In a avoid -> upper r <> upper a).
+  Proof.
+    intros i avoid. unfold Ident.pick_col_ident.
+    destruct (sanitize_spec i [99] false eq_refl) as [s [-> Hs]].
+    destruct Hs as [->|[Hv [Hk _]]].
+    - destruct (gen_ident_spec (uppercase upper_char avoid)) as [r [-> [Ht [Hk [Hu Hm]]]]].
+      exists r. split; [reflexivity|]. split; [apply valid_table_valid; exact Ht|]. split; [exact Hk|].
+      intros a Ha E. apply mem_false in Hm. apply Hm. unfold uppercase.
+      pose proof (upper_of_upper_letters r Hu) as Hr.
+      assert (R : r = upper (upper a)) by (rewrite <- E, Hr, Hr; reflexivity).
+      rewrite R. apply in_map, in_map. exact Ha.
+    - destruct s as [|c t]; [discriminate Hv|].
+      destruct (maybe_add_suffix_spec (c :: t) (uppercase upper_char avoid) Hv Hk) as [r [-> [Rv [_ [Rk Rm]]]]].
+      exists r. split; [reflexivity|]. split; [exact Rv|]. split; [exact Rk|].
+      apply not_mem_upper. exact Rm.
+  Qed.
+
+  Lemma pick_table_spec : forall i avoid,
+    exists r, pick_table_ident i avoid = Some r /\ valid_table_identb r = true /\ iskeyword r = false /\
+      (forall a, In a avoid -> upper r <> upper a).
+  Proof.
+    intros i avoid. unfold Ident.pick_table_ident.
+    destruct (sanitize_spec i [84] true eq_refl) as [s [-> Hs]].
+    destruct Hs as [->|[Hv [Hk Ht]]].
+    - destruct (add_suffix_spec s_Table (uppercase upper_char avoid) 1 eq_refl ltac:(lia))
+        as [r [-> [Rv [Rt [Rk Rm]]]]].
+      exists r. split; [reflexivity|]. split; [apply Rt; reflexivity|]. split; [exact Rk|].
+      apply not_mem_upper. exact Rm.
+    - destruct s as [|c t]; [discriminate Hv|]. specialize (Ht eq_refl eq_refl).
+      destruct (maybe_add_suffix_spec (c :: t) (uppercase upper_char avoid) Hv Hk) as [r [-> [Rv [Rt [Rk Rm]]]]].
+      exists r. split; [reflexivity|]. split; [apply Rt; exact Ht|]. split; [exact Rk|].
+      apply not_mem_upper. exact Rm.
+  Qed.
+
+  Lemma pick_col_kept : forall s avoid, valid_identb s = true -> iskeyword s = false ->
+    (forall a, In a avoid -> upper s <> upper a) -> pick_col_ident (Some s) avoid = Some s.
+  Proof using cap_ascii nfkd_ascii combining_ascii.
+    try clear kw_ok; try clear upper_idem.
+    intros s avoid Hv Hk Hf. unfold Ident.pick_col_ident.
+    rewrite (sanitize_kept s [99] false Hv Hk) by discriminate.
+    destruct s as [|c t]; [discriminate Hv|]. unfold Ident.maybe_add_suffix.
+    destruct (mem (upper (c :: t)) (uppercase upper_char avoid)) eqn:E; [|reflexivity].
+    exfalso. apply mem_In in E. unfold uppercase in E. apply in_map_iff in E.
+    destruct E as [a [E Ha]]. apply (Hf a Ha). symmetry. exact E.
+  Qed.
+
+  Lemma pick_table_kept : forall s avoid, valid_table_identb s = true -> iskeyword s = false ->
+    (forall a, In a avoid -> upper s <> upper a) -> pick_table_ident (Some s) avoid = Some s.
+  Proof using cap_ascii nfkd_ascii combining_ascii.
+    try clear kw_ok; try clear upper_idem.
+    intros s avoid Ht Hk Hf. unfold Ident.pick_table_ident.
+    rewrite (sanitize_kept s [84] true (valid_table_valid s Ht) Hk) by (intros _; exact Ht).
+    destruct s as [|c t]; [discriminate Ht|]. unfold Ident.maybe_add_suffix.
+    destruct (mem (upper (c :: t)) (uppercase upper_char avoid)) eqn:E; [|reflexivity].
+    exfalso. apply mem_In in E. unfold uppercase in E. apply in_map_iff in E.
+    destruct E as [a [E Ha]]. apply (Hf a Ha). symmetry. exact E.
+  Qed.
+
+  (* ---- pick_col_ident_list ---- *)
+  Definition good (r : str) : Prop := valid_identb r = true /\ iskeyword r = false.
+
+  Lemma pick_list_loop_spec : forall idents U,
+    exists rs, pick_list_loop idents U = Some rs /\ length rs = length idents /\ Forall good rs /\
+      (forall r, In r rs -> forall u, In u U -> upper r <> u) /\ NoDup (map upper rs).
+  Proof.
+    induction idents as [|i t IH]; intros U.
+    - exists []. cbn. repeat split; try constructor. intros r [].
+    - cbn [Ident.pick_list_loop].
+      destruct (pick_col_spec i U) as [r [-> [Hv [Hk Hf]]]].
+      destruct (IH (upper r :: U)) as [rs [-> [Hl [Hg [Hd Hn]]]]].
+      exists (r :: rs). split; [reflexivity|]. split; [cbn; lia|]. split; [constructor; [split|]; assumption|].
+      split.
+      + intros r' [<-|Hr'] u Hu.
+        * intros E. apply (Hf u Hu). rewrite <- E. symmetry. apply upper_upper_ascii, valid_ident_ascii, Hv.
+        * apply (Hd r' Hr'). right. exact Hu.
+      + cbn [map]. constructor; [|exact Hn]. intros Hin. apply in_map_iff in Hin.
+        destruct Hin as [r' [E Hr']]. apply (Hd r' Hr' (upper r)); [left; reflexivity|exact E].
+  Qed.
+
+  Lemma pick_col_ident_list_spec : forall idents avoid,
+    exists rs, pick_col_ident_list idents avoid = Some rs /\ length rs = length idents /\ Forall good rs /\
+      (forall r, In r rs -> forall a, In a avoid -> upper r <> upper a) /\ NoDup (map upper rs).
+  Proof.
+    intros idents avoid. unfold Ident.pick_col_ident_list.
+    destruct (pick_list_loop_spec idents (uppercase upper_char avoid)) as [rs [-> [Hl [Hg [Hd Hn]]]]].
+    exists rs. split; [reflexivity|]. split; [exact Hl|]. split; [exact Hg|]. split; [|exact Hn].
+    intros r Hr a Ha. apply (Hd r Hr). unfold uppercase. apply in_map. exact Ha.
+  Qed.
+
+  Lemma pick_list_loop_kept : forall ss U, Forall good ss -> NoDup (map upper ss) ->
+    (forall s, In s ss -> forall u, In u U -> upper s <> upper u) ->
+    pick_list_loop (map Some ss) U = Some ss.
+  Proof.
+    induction ss as [|s t IH]; intros U Hg Hn Hf; [reflexivity|].
+    cbn [map Ident.pick_list_loop]. inversion Hg as [|? ? [Hv Hk] Hg']; subst.
+    cbn [map] in Hn. inversion Hn as [|? ? Hnin Hn']; subst.
+    rewrite (pick_col_kept s U Hv Hk) by (apply Hf; left; reflexivity).
+    rewrite IH; [reflexivity|exact Hg'|exact Hn'|].
+    intros s' Hs' u [<-|Hu].
+    - rewrite upper_idem_str. intros E. apply Hnin. rewrite <- E. apply in_map. exact Hs'.
+    - apply Hf; [right; exact Hs'|exact Hu].
+  Qed.
+
+  Lemma pick_col_ident_list_kept : forall ss avoid, Forall good ss -> NoDup (map upper ss) ->
+    (forall s, In s ss -> forall a, In a avoid -> upper s <> upper a) ->
+    pick_col_ident_list (map Some ss) avoid = Some ss.
+  Proof.
+    intros ss avoid Hg Hn Hf. unfold Ident.pick_col_ident_list. apply pick_list_loop_kept; [exact Hg|exact Hn|].
+    intros s Hs u Hu. unfold uppercase in Hu. apply in_map_iff in Hu. destruct Hu as [a [<- Ha]].
+    rewrite upper_idem_str. apply Hf; assumption.
+  Qed.
+
+  (* a valid identifier is ASCII, so its upper-case form is the ASCII one: the freshness statements can
+     be read without the oracle on the result side *)
+  Lemma upper_valid : forall r, valid_identb r = true -> upper r = map ascii_upper r.
+  Proof. intros r H. apply upper_ascii_str, valid_ident_ascii, H. Qed.
+  (* ---- the statements in the form used by Props/C21.v ---- *)
+  Lemma pick_col_total : forall i avoid, pick_col_ident i avoid <> None.
+  Proof. intros i avoid. destruct (pick_col_spec i avoid) as [r [-> _]]. discriminate. Qed.
+  Lemma pick_table_total : forall i avoid, pick_table_ident i avoid <> None.
+  Proof. intros i avoid. destruct (pick_table_spec i avoid) as [r [-> _]]. discriminate. Qed.
+  Lemma pick_list_total : forall idents avoid, pick_col_ident_list idents avoid <> None.
+  Proof. intros i avoid. destruct (pick_col_ident_list_spec i avoid) as [r [-> _]]. discriminate. Qed.
+
+  Lemma pick_col_valid : forall i avoid r, pick_col_ident i avoid = Some r ->
+    valid_identb r = true /\ iskeyword r = false.
+  Proof.
+    intros i avoid r H. destruct (pick_col_spec i avoid) as [r' [E [H1 [H2 _]]]].
+    rewrite E in H. inversion H; subst. split; assumption.
+  Qed.
+  Lemma pick_table_valid : forall i avoid r, pick_table_ident i avoid = Some r ->
+    valid_table_identb r = true /\ valid_identb r = true /\ iskeyword r = false.
+  Proof.
+    intros i avoid r H. destruct (pick_table_spec i avoid) as [r' [E [H1 [H2 _]]]].
+    rewrite E in H. inversion H; subst. split; [exact H1|]. split; [apply valid_table_valid; exact H1|exact H2].
+  Qed.
+  Lemma pick_col_fresh : forall i avoid r, pick_col_ident i avoid = Some r ->
+    forall a, In a avoid -> upper r <> upper a.
+  Proof.
+    intros i avoid r H. destruct (pick_col_spec i avoid) as [r' [E [_ [_ H3]]]].
+    rewrite E in H. inversion H; subst. exact H3.
+  Qed.
+  Lemma pick_table_fresh : forall i avoid r, pick_table_ident i avoid = Some r ->
+    forall a, In a avoid -> upper r <> upper a.
+  Proof.
+    intros i avoid r H. destruct (pick_table_spec i avoid) as [r' [E [_ [_ H3]]]].
+    rewrite E in H. inversion H; subst. exact H3.
+  Qed.
+
+  (* the same without any oracle: against ASCII names the result differs after ASCII case folding *)
+  Lemma fresh_ascii : forall r a, valid_identb r = true -> forallb is_ascii a = true ->
+    upper r <> upper a -> map ascii_upper r <> map ascii_upper a.
+  Proof.
+    intros r a Hv Ha H E. apply H. rewrite (upper_valid r Hv), (upper_ascii_str a Ha). exact E.
+  Qed.
+  Lemma pick_col_fresh_ascii : forall i avoid r, pick_col_ident i avoid = Some r ->
+    forall a, In a avoid -> forallb is_ascii a = true -> map ascii_upper r <> map ascii_upper a.
+  Proof.
+    intros i avoid r H a Ha Hasc. apply fresh_ascii; [apply (pick_col_valid i avoid r H)|exact Hasc|].
+    apply (pick_col_fresh i avoid r H a Ha).
+  Qed.
+  Lemma pick_table_fresh_ascii : forall i avoid r, pick_table_ident i avoid = Some r ->
+    forall a, In a avoid -> forallb is_ascii a = true -> map ascii_upper r <> map ascii_upper a.
+  Proof.
+    intros i avoid r H a Ha Hasc. apply fresh_ascii; [apply (pick_table_valid i avoid r H)|exact Hasc|].
+    apply (pick_table_fresh i avoid r H a Ha).
+  Qed.
+
+  Lemma map_upper_valid : forall rs, Forall good rs -> map upper rs = map (map ascii_upper) rs.
+  Proof.
+    induction rs as [|r t IH]; intros H; [reflexivity|]. inversion H as [|? ? [Hv _] H']; subst.
+    cbn [map]. rewrite (upper_valid r Hv), IH by exact H'. reflexivity.
+  Qed.
+
+  Lemma pick_list_props : forall idents avoid rs, pick_col_ident_list idents avoid = Some rs ->
+    length rs = length idents /\
+    Forall (fun r => valid_identb r = true /\ iskeyword r = false) rs /\
+    (forall r, In r rs -> forall a, In a avoid -> upper r <> upper a) /\
+    NoDup (map upper rs) /\ NoDup (map (map ascii_upper) rs).
+  Proof.
+    intros idents avoid rs H. destruct (pick_col_ident_list_spec idents avoid) as [rs' [E [H1 [H2 [H3 H4]]]]].
+    rewrite E in H. inversion H; subst. split; [exact H1|]. split; [exact H2|]. split; [exact H3|].
+    split; [exact H4|]. rewrite <- (map_upper_valid rs H2). exact H4.
+  Qed.
+End Proofs.
+
+(* The table-driven oracle instances used by the correspondence check satisfy the ASCII hypotheses by
+   construction, whatever the tables contain. *)
+Lemma table_oracles_ok : forall t : tables,
+  (forall c, is_ascii c = true -> t_upper t c = [ascii_upper c]) /\
+  (forall c, is_ascii c = true -> t_cap t c = [ascii_upper c]) /\
+  (forall s, forallb is_ascii s = true -> t_nfkd t s = s) /\
+  (forall c, is_ascii c = true -> t_comb t c = false).
+Proof.
+  intros t. unfold t_upper, t_cap, t_nfkd, t_comb, upper_char_of, nfkd_of, combining_of.
+  repeat split; intros x H; rewrite H; reflexivity.
+Qed.
